@@ -218,6 +218,18 @@ impl Monitor for Mon {
                             if let Some(v) = self.resolve(region, pd, &cmds, stats) {
                                 return Some(v);
                             }
+                            // an acknowledged LinkADRReq has taken effect: this very uplink is sent at the data rate
+                            // the device now holds (an accepted block also ends any join-channel bias)
+                            if let (true, Some(b)) = (cmds.iter().any(|a| a.cid == 0x03 && a.status() == 0x07), &rec.snap_before) {
+                                if !crate::expect::rf_is_dr(region, &tx.rf, b.data_rate) {
+                                    return Some(Violation::new(
+                                        "C08.ack-not-applied",
+                                        &format!("tx-datarate|{}", if region.is_fixed() { "fixed" } else { "dynamic" }),
+                                        format!("{region:?}: the uplink carrying LinkADRAns 0x07 is sent at SF{}/BW{} although the device holds data rate {} after the accepted request", tx.rf.sf, tx.rf.bw_khz, b.data_rate),
+                                    ));
+                                }
+                                stats.bump("probe.linkadr-ack-visible-in-tx");
+                            }
                         } else if let Some(st) = &self.sticky {
                             let got: Vec<Ans> = cmds.iter().filter(|a| !optional_kind(a.cid)).cloned().collect();
                             if got != *st {
